@@ -160,14 +160,46 @@ def same_py(a, b):
     return type(a) is type(b) and repr(a) == repr(b)
 
 
+def call_kwargs(case, stat=None):
+    """the keyword arguments of the Scale / Impute / Environments.scale / Environments.impute call of a case.
+    `case["omit"]` lists keywords that are NOT passed (the case then states the documented default for them)."""
+    omit = set(case.get("omit", ()))
+    env = case.get("via", "filter") == "env"
+    kw = {}
+    if case["op"] == "scale":
+        if "shift" not in omit:
+            kw["shift"] = param_py(case["shift"])
+        if "scale" not in omit:
+            kw["scale"] = param_py(case["scale"])
+        if "using" not in omit and (case.get("using") is not None or case.get("explicit_using") or not env):
+            kw["using"] = case.get("using")
+        if case.get("targets") is not None:
+            t = case["targets"]
+            if env:
+                kw["targets"] = t[0] if (len(t) == 1 and case.get("targets_as_str")) else list(t)
+            else:
+                kw["target"] = t[0]
+    else:
+        if "stats" not in omit:
+            if env:
+                kw["stats"] = case["stats"] if (len(case["stats"]) > 1 or case.get("stats_as_list")) else case["stats"][0]
+            else:
+                kw["stat"] = stat or case["stats"][0]
+        if "ind" not in omit:
+            kw["indicator"] = case["ind"]
+        if "using" not in omit:
+            kw["using"] = case.get("using")
+    return kw
+
+
+def canon_params(p):
+    return {str(k): (v if isinstance(v, (str, type(None))) else (bool(v) if isinstance(v, bool) else from_py(v))) for k, v in dict(p).items()}
+
+
 def make_filter(case, stat=None):
     from coba.environments.filters import Scale, Impute
-    if case["op"] == "scale":
-        args = [param_py(case["shift"]), param_py(case["scale"])]
-        if case.get("using") is not None or case.get("explicit_using"):
-            return Scale(args[0], args[1], "context", case.get("using"))
-        return Scale(*args)
-    return Impute(stat or case["stats"][0], case["ind"], case.get("using"))
+    kw = call_kwargs(dict(case, via="filter"), stat)
+    return Scale(**kw) if case["op"] == "scale" else Impute(**kw)
 
 
 def run_impl(case, rows=None, kind=None):
@@ -196,22 +228,21 @@ def run_impl(case, rows=None, kind=None):
             base = list(Environments(_Env(inter))[0].read())
             envs = Environments(_Env(inter))
             if case["op"] == "scale":
-                kw = {}
-                if case.get("using") is not None:
-                    kw["using"] = case["using"]
-                envs = envs.scale(param_py(case["shift"]), param_py(case["scale"]), **kw)
+                envs = envs.scale(**call_kwargs(case))
             else:
                 if case.get("chain"):
                     for st in case["stats"]:
                         envs = envs.impute(st, case["ind"], case.get("using"))
                 else:
-                    stats = case["stats"] if (len(case["stats"]) > 1 or case.get("stats_as_list")) else case["stats"][0]
-                    envs = envs.impute(stats, case["ind"], case.get("using"))
+                    envs = envs.impute(**call_kwargs(case))
             res["n_envs"] = len(envs)
+            res["params"] = canon_params(envs[0].params)
             out = list(envs[0].read())
         else:
             base = inter
-            out = list(make_filter(case).filter(inter))
+            flt = make_filter(case)
+            res["params"] = canon_params(flt.params)
+            out = list(flt.filter(inter))
     except Exception as e:  # noqa: the kind of exception is part of the observable
         res["err"] = type(e).__name__
         res["msg"] = str(e)[:200]
@@ -878,7 +909,10 @@ class C11(Property):
             "Impute with mean/median/mode x indicator and lists of statistics through Environments.impute; using in {None,1,<N,N,>N}; direct "
             "filter or Environments.scale/impute; the same table is also run in the other container kinds (agreement); 20% of the cases "
             "are 2-3 different sequences (values, feature counts, kinds) given to ONE filter object or ONE Environments([..]).scale/impute "
-            "call in a PRNG-chosen order, each judged against its own reference. "
+            "call in a PRNG-chosen order, each judged against its own reference. Phase 3: 7% of numeric columns are MIXED (strings among "
+            "numbers: first cell, last, one, many), keywords are left out in 12% each (documented defaults), targets 'context' as str/list, "
+            "['context','context'], 'rewards', using=0, scale 0 / shift 0.0 — configurations outside the quantifier (mixed numbers, using=0, "
+            "other targets) are compared with the model only ((A) outputs and .params vs the modelled argument glue). "
             "non-trivial = at least one cell is pinned by the exact reference and at least one value changes; distinct by canonical JSON")
     trusted_base = [
         "values are ints / dyadic floats with few bits so min/max/median/iqr/mode are exact in double precision; results involving a division "
@@ -890,6 +924,8 @@ class C11(Property):
         "filter objects and Environments collections are modelled as state machines (`Obj.run`, `Coll.reads`, state = `_times`); "
         "sequence cases are compared with that stateful model; Finalize/BatchSafe added by Environments.__getitem__ are not modelled",
         "CPython's min/max/sorted/statistics.median/mode/fmean are modelled by their mathematical meaning (first maximal element for mode)",
+        "argument glue: Environments.scale/impute and the Scale/Impute constructors are modelled as functions from the passed keywords to "
+        "filter configurations (envScaleFilters, scaleCtorCfg, envImputeFilters); the real `.params` are compared with them on every case",
         "only contexts are modelled; that all other fields of an interaction are passed through is checked directly on the implementation",
         "the float literal .000001 in Scale._scale_value is modelled as the rational 1/10^6 (no generated statistic lies between the two)",
     ]
@@ -897,7 +933,8 @@ class C11(Property):
         "features are typed: a column holds numbers (with None/nan as missing) or strings (with None as missing), not both",
         "missing = None or nan for both filters (decision of phase 2, finding C11-F13 for Impute); an indicator is demanded for every "
         "feature with a missing value in the window, imputable or not (finding C11-F14)",
-        "using >= 1 or None",
+        "using >= 1 or None for (B); using=0 is modelled exactly (incl. the dense empty-window quirk) and compared by (A)",
+        "mixed-type columns are outside (B) for their numbers (strings/None/nan still must stay); the model is exact for them and compared by (A)",
     ]
     partial_theorems = {}   # phase 2: the two sparse `_partial` theorems were lifted (fixes for C11-F9/F10 proposed, model mirrors them)
 
@@ -977,7 +1014,14 @@ class C11(Property):
         for _ in range(m):
             numeric = rng.chance(0.75)
             col = self.gen_numeric_column(rng, n) if numeric else self.gen_string_column(rng, n)
-            cols.append(col if clean else self.sprinkle_missing(rng, col, numeric, allow_nan))
+            col = col if clean else self.sprinkle_missing(rng, col, numeric, allow_nan)
+            if numeric and rng.chance(0.07):
+                # a MIXED-type column (outside the property's quantifier; compared with the model only): strings among numbers,
+                # at the first position, a single one, or after the window
+                pos = rng.choice([[0], [n - 1], [rng.below(n)], [i for i in range(n) if rng.chance(0.4)]])
+                for i in pos:
+                    col[i] = V(rng.choice(["x", "y"]))
+            cols.append(col)
         return n, m, cols
 
     def gen_using(self, rng, n):
@@ -1021,7 +1065,7 @@ class C11(Property):
                 if other["rows"] and other["rows"][0] != "nocontext":
                     break
             subs.append({k: other[k] for k in table_keys if k in other})
-        case = {k: v for k, v in base.items() if k not in table_keys and k not in ("via", "stats_as_list")}
+        case = {k: v for k, v in base.items() if k not in table_keys and k not in ("via", "stats_as_list", "omit", "targets", "targets_as_str")}
         if op == "scale" and any(sc["kind"] == "sparse" for sc in subs) and rng.chance(0.7):
             case["shift"] = V(0)
         if op == "impute" and mode == "reuse":
@@ -1077,6 +1121,38 @@ class C11(Property):
                 if case["via"] == "env" and rng.chance(0.3):
                     case["stats_as_list"] = True
             case["ind"] = rng.chance(0.5)
+        # argument glue: keywords left out (the case then states the documented default), targets, using=0, scale 0
+        env = case["via"] == "env"
+        omit = []
+        if op == "scale":
+            if rng.chance(0.12):
+                omit.append("shift"); case["shift"] = "min" if env else V(0)
+            if rng.chance(0.12):
+                omit.append("scale"); case["scale"] = "minmax"
+            if rng.chance(0.12):
+                omit.append("using"); case["using"] = None
+            if "scale" not in omit and rng.chance(0.04):
+                case["scale"] = rng.choice([V(0), V(0.0, "f")])
+            r = rng.below(100)
+            if r < 6:
+                case["targets"] = ["context"]
+                case["targets_as_str"] = rng.chance(0.5)
+            elif r < 9 and env:
+                case["targets"] = ["context", "context"]
+            elif r < 12:
+                case["targets"] = ["rewards"]
+                case["targets_as_str"] = rng.chance(0.5)
+        else:
+            if rng.chance(0.12):
+                omit.append("stats"); case["stats"] = ["mean"]; case.pop("stats_as_list", None)
+            if rng.chance(0.12):
+                omit.append("ind"); case["ind"] = True
+            if rng.chance(0.12):
+                omit.append("using"); case["using"] = None
+        if "using" not in omit and rng.chance(0.03):
+            case["using"] = 0
+        if omit:
+            case["omit"] = omit
         if rng.chance(0.02):
             case["rows"] = []
         elif rng.chance(0.02):
@@ -1280,6 +1356,8 @@ class C11(Property):
         tags.append("op:" + op)
         tags.append("kind:" + kind)
         tags.append("via:" + case.get("via", "filter"))
+        for o in case.get("omit", ()):
+            tags.append("omitted:" + o)
         tags.append("using:" + ("none" if case.get("using") is None else "1" if case["using"] == 1 else
                                "lt" if case["using"] < len(rows) else "eq" if case["using"] == len(rows) else "gt"))
         if op == "scale":
@@ -1313,16 +1391,26 @@ class C11(Property):
         if kind == "sparse" and set(k for k, _ in first) != set(feature_keys(kind, rows)):
             tags.append("sparse:key-absent-from-first")
 
+        outside = None
+        if case.get("using") == 0:
+            outside = "using=0"
+        elif case.get("targets") not in (None, ["context"]):
+            outside = "targets=%s" % "+".join(case["targets"])
+        if outside:
+            tags.append("outside-quantifier:" + outside)
         # (B) the property, evaluated on the implementation's result with exact arithmetic
         ref = Ref(case, kind, rows, impl, "main")
-        if ref.common():
+        if outside:
+            if "out" in impl and (impl["n"] != len(rows) or not impl.get("others_ok", True)):
+                ref.fail("interactions or fields other than the context changed: %s" % impl.get("others_bad"), "%s-other-field-changed" % op)
+        elif ref.common():
             if op == "scale":
                 ref.check_scale()
             else:
                 ref.check_impute(case["stats"])
         fails += ref.fails
         tags += sorted(ref.tags)
-        if op == "impute" and len(case["stats"]) > 1 and "out" in impl and not in_seq and not any(f["sig"] == "impute-list-only-last-applied" for f in fails):
+        if op == "impute" and len(case["stats"]) > 1 and "out" in impl and not in_seq and not outside and not any(f["sig"] == "impute-list-only-last-applied" for f in fails):
             # (B) a list of statistics is applied in order: the same as chaining single-statistic calls (on the implementation itself)
             chain = run_impl(dict(case, chain=True))
             if chain.get("out") != impl["out"]:
@@ -1337,10 +1425,11 @@ class C11(Property):
                            "A:input-mutated:%s" % op))
         main_b_failed = any(f["kind"] == "B" for f in fails)
         # (B) agreement of the container kinds: the same table as dense / sparse / scalar contexts must meet the same reference
-        for tkind, trows in ([] if in_seq else self.twins(case)):
+        for tkind, trows in ([] if (in_seq or outside) else self.twins(case)):
             star = tkind.endswith("*")
             tk = tkind.rstrip("*")
             tcase = dict(case, kind=tk, rows=trows, via="filter")
+            tcase.pop("omit", None)        # the twin states every argument explicitly
             if op == "impute" and len(case["stats"]) > 1:
                 continue
             timpl = run_impl(tcase)
@@ -1366,13 +1455,23 @@ class C11(Property):
         model = None
         b_failed = main_b_failed
         if driver is not None:
-            req = {"op": op, "kind": kind, "using": case.get("using"), "rows": self.rows_to_lean(kind, rows)}
+            omit = set(case.get("omit", ()))
+            req = {"op": op, "kind": kind, "rows": self.rows_to_lean(kind, rows), "via": case.get("via", "filter")}
+            if "using" not in omit:
+                req["using"] = case.get("using")
             if op == "scale":
-                req["shift"] = param_lean(case["shift"])
-                req["scale"] = param_lean(case["scale"])
+                if "shift" not in omit:
+                    req["shift"] = param_lean(case["shift"])
+                if "scale" not in omit:
+                    req["scale"] = param_lean(case["scale"])
+                if case.get("targets") is not None:
+                    req["targets"] = list(case["targets"])
             else:
-                req["stats"] = case["stats"]
-                req["ind"] = case["ind"]
+                req["via"] = "env"       # one Impute filter per statistic either way
+                if "stats" not in omit:
+                    req["stats"] = case["stats"]
+                if "ind" not in omit:
+                    req["ind"] = case["ind"]
             skip = None
             if op == "impute" and len(case["stats"]) > 1 and not lists_applied_in_order():
                 b_failed = True      # (A) is meaningless while only the last statistic is applied (reported via C11-F11's case)
@@ -1394,6 +1493,12 @@ class C11(Property):
                 ans = model_ans if model_ans is not None else driver.ask(req)
                 model = ans["model"]
                 d = None if b_failed else self.compare_model(case, impl, ans)
+                if model_ans is None and "params" in impl and "cfgs" in ans:
+                    pd = self.compare_params(case, impl["params"], ans["cfgs"])
+                    if pd:
+                        fails.append(F("A", "the configuration the call produced (params) differs from the arguments as the model maps them: %s" % pd,
+                                       "A:%s:params" % op))
+                    tags.append("params-checked")
                 if main_b_failed:
                     tags.append("A-skipped:B-failed")
                 if d:
@@ -1402,7 +1507,7 @@ class C11(Property):
                     fails += self.check_variance(case, driver, tags)
                 # (C) the model itself against the exact reference (run-time guard of the theorems' plumbing); the two
                 #     recorded sparse-key-outside-window deviations are the `_partial` hypotheses and are not demanded
-                if "err" not in model:
+                if "err" not in model and not outside:
                     mimpl = {"n": len(model["rows"]), "others_ok": True, "out": [self.model_row(model["kind"], r) for r in model["rows"]]}
                     cref = Ref(case, kind, rows, mimpl, "model")
                     if cref.common():
@@ -1413,6 +1518,38 @@ class C11(Property):
                     for f in cref.fails:
                         fails.append(F("C", "the Lean model does not meet the reference: %s" % f["what"], "C:" + f["sig"]))
         return {"fails": fails, "nontrivial": bool(nontrivial), "tags": tags, "impl": impl, "model": model}
+
+    def compare_params(self, case, params, cfgs):
+        """`.params` of the real filter / environment pipeline against the model's filter configurations"""
+        n = len(cfgs)
+        for i, c in enumerate(cfgs):
+            suf = "" if n == 1 else str(i + 1)
+            if case["op"] == "scale":
+                want = {"shift" + suf: c["shift"], "scale" + suf: c["scale"], "scale_using" + suf: c["using"]}
+            else:
+                want = {"impute_stat" + suf: c["stat"], "impute_indicator" + suf: c["ind"], "impute_using" + suf: c["using"]}
+            for k, w in want.items():
+                if k not in params:
+                    return "parameter %r missing (params %s)" % (k, params)
+                g = params[k]
+                if g == "med":
+                    g = "median"
+                if isinstance(w, list):                       # a rational
+                    if not (is_num(g) and fr(g) == Fraction(w[0], w[1])):
+                        return "%s = %s, arguments give %s" % (k, show(g) if isinstance(g, dict) else g, Fraction(w[0], w[1]))
+                elif isinstance(w, bool) or w is None or isinstance(w, str):
+                    gg = g
+                    if is_num(g) and isinstance(w, bool):
+                        gg = bool(fr(g))
+                    if gg != w:
+                        return "%s = %r, arguments give %r" % (k, g, w)
+                else:                                           # using: a natural number
+                    if not (is_num(g) and fr(g) == w):
+                        return "%s = %r, arguments give %r" % (k, g, w)
+        extra = [k for k in params if k.startswith(("shift", "scale", "impute_"))]
+        if len(extra) != 3 * n:
+            return "%d filter parameters, the arguments give %d filters" % (len(extra), n)
+        return None
 
     def check_variance(self, case, driver, tags):
         """`std`: the model's exact sample variance = statistics.variance (the function coba's stdev is the root of), and
